@@ -457,6 +457,8 @@ def r_cancel_safe(e, R):
                     arbitrary = True
                 elif node.func.attr == "pop":
                     key = node.args[0] if node.args else None
+                    if isinstance(key, ast.Name) and len(e.local_defs(f, key.id)) == 1:
+                        key = e.local_defs(f, key.id)[0]          # the id read once into a local (`work_id = obj.work_id`)
                     dispatched = isinstance(key, ast.Attribute) and isinstance(key.value, ast.Name) and key.value.id in f.params
                     if not dispatched:
                         arbitrary = True
